@@ -176,8 +176,10 @@ class MediaQuery(cssutils.util._NewBase):  # cssutils.util.Base):
                 self._log.error(
                     'MediaQuery: Incomplete media query: %s' % self._valuestr(mediaText)
                 )
-        self._wellformed = ok
         if ok:
+            # (a rejected text leaves the query as it was)
+            self._wellformed = True
+            self._mediaType = ''
             try:
                 media_type = store['media_type']
             except KeyError:
